@@ -199,6 +199,9 @@ def run(ctx):
         r.check(len(pair_tests) >= 1 and all(l == "false" for d, l in pair_tests if d.startswith("is_linked(")), "handle_event/implicit-link-iff-pair-not-linked", ins[0].loc(),
                 "links.insert + Linked exactly when this (remote, lane) pair is not linked (%s)" % (pair_tests[0][0][:50] if pair_tests else ""),
                 "the implicit link is decided by %s, which does not test the (remote %s, lane %s) pair: a remote linked to another lane gets this lane's frames without `linked` and is never recorded as linked" % ([(d[:50], l) for d, l, _ in g if "links" in d or "link" in d][-2:], remote_d, lane_d))
+        known = [(d, l) for d, l, _ in g if d.startswith("has_remote(") and remote_d in all_args(d)]
+        r.check(any(l == "true" for d, l in known), "handle_event/implicit-link-only-for-attached-remote", ins[0].loc(), "the implicit link is recorded only for a remote the tracker still knows (has_remote)",
+                "links.insert for the target of a response is not guarded by remote_tracker.has_remote: the late response of a remote that was removed creates a link that nothing can ever remove (and that is counted)")
         r.check(all(any(dd == d and ll == l for dd, ll, _ in dom_guards(he, sp[0].block)) for d, l in pair_tests), "handle_event/Linked-under-the-same-test", sp[0].loc(), "the Linked frame is queued under the same test as the registration")
         first = [c for c in pws if he.dominates(sp[0].block, c.block)]
         r.check(len(first) == 1 and he.dominates(ins[0].block, sp[0].block), "handle_event/linked-before-data", sp[0].loc(), "insert, then push_special(Linked), then push_write on the implicit-link path",
